@@ -318,7 +318,7 @@ func (e *Env) applyEnvStep(i int, s Step) {
 				}
 			})
 		}
-		e.Rec.Log(Event{Step: i, Ev: "edit", Kind: "edit", ID: s.Edit.Res, Verb: s.Edit.Field + "=" + s.Edit.Value, OK: true})
+		e.Rec.Log(Event{Step: i, Ev: "edit", Kind: "edit", ID: s.Edit.Res, Verb: s.Edit.Field + "=" + s.Edit.Value, Field: s.Edit.Field, Value: s.Edit.Value, OK: true})
 	case s.OobDel != "":
 		if k, ok := e.findObj(s.OobDel); ok {
 			e.Sim.Remove(k)
@@ -365,7 +365,7 @@ func parseVals(s string) map[string]interface{} {
 func (e *Env) RunOp(proc, i int, s Step) (res OpResult) {
 	cfg := e.Config(proc)
 	e.Rec.Plan(proc, i, s.Fault, s.Crash)
-	e.Rec.Log(Event{Proc: proc, Step: i, Ev: "begin", Op: s.Op, Chart: s.Chart, Vals: s.Vals, Flags: s.Flags, OK: true})
+	e.Rec.Log(Event{Proc: proc, Step: i, Ev: "begin", Op: s.Op, Chart: s.Chart, Vals: s.Vals, Flags: NormFlags(s.Flags), OK: true})
 	defer func() {
 		if r := recover(); r != nil {
 			res.Err = fmt.Sprintf("PANIC: %v", r)
@@ -373,6 +373,7 @@ func (e *Env) RunOp(proc, i int, s Step) (res OpResult) {
 		dead, _, _, _ := e.Rec.Finish(proc)
 		if dead {
 			res.Err = "CRASHED"
+			return // a dead process reports nothing
 		}
 		e.Rec.Log(Event{Proc: proc, Step: i, Ev: "end", Op: s.Op, OK: res.Err == "", Err: res.Err, Info: res.Info})
 	}()
